@@ -213,6 +213,16 @@ def oracle_delete(case) -> Result:
 SUBS = {"values": oracle, "cookies": oracle, "delete": oracle_delete}
 
 
+def name_cases():
+    """Several cookies on one response whose names differ only in letter case, or are prefixes of one another."""
+    import itertools
+
+    for group in (["sid", "SID"], ["SID", "sid"], ["Sid", "sid", "SID"], ["a", "ab"], ["ab", "a"], ["k", "k2", "K"], ["token", "Token", "tokens"], ["x-y", "X-Y"]):
+        for values in (["1", "2", "3"], ['q"1', "", "a b"], ["same", "same", "same"]):
+            for extra in ({}, {"expires": 60}, {"max_age": 0}):
+                yield {"cookies": [dict({"name": n, "value": v}, **extra) for n, v in zip(group, values)], "tz": "UTC0", "foreign": bool(extra)}
+
+
 def value_cases():
     for cp in range(256):
         ch = chr(cp)
@@ -234,6 +244,14 @@ _value = st.one_of(
 @st.composite
 def cookie_case(draw):
     names = draw(st.lists(_name, min_size=1, max_size=4, unique=True))
+    if draw(st.integers(0, 3)) == 0:
+        # cookie names are case-sensitive, and one may be a prefix of another
+        base = draw(st.sampled_from(names))
+        for variant in draw(st.permutations([base.swapcase(), base.upper(), base.lower(), base + "x", base[:-1], base + base])):
+            if variant and variant not in names and len(names) < 5:
+                names.insert(draw(st.integers(0, len(names))), variant)
+                if draw(st.booleans()):
+                    break
     cookies = []
     for n in names:
         c = {"name": n, "value": draw(_value)}
@@ -253,12 +271,15 @@ def oracle_atheris(case) -> Result:
 
 
 SUBS["atheris"] = oracle_atheris
+SUBS["names"] = oracle
 
 
 def run(rec, only=None):
     quick = rec.tier == "quick"
     core.drive_cases(rec, "values", value_cases(), oracle)
     rec.exhaustive["values"] = True
+    core.drive_cases(rec, "names", name_cases(), oracle)
+    rec.exhaustive["names"] = True
     core.drive_hypothesis(rec, "cookies", cookie_case(), oracle, 1200 if quick else 30000)
     core.drive_cases(rec, "delete", ({"tz": z, "name": n} for z in ZONES for n in ("session", "a.b")), oracle_delete)
     rec.exhaustive["cookies"] = False
